@@ -208,10 +208,10 @@ theorem chain_ttb_le {isFn : Nat → Bool} {frames : List Ref.Frame} :
 /-- **Inside a force** the relation holds in the frame where the thunk was made: the captured stack is
 the static chain of that frame, and the helper's closing stack is that very stack -/
 theorem relF_inForce {m : Nat → Nat} {s : St} {rs : Ref.St} {env : Nat} (h : RelF m s rs env)
-    {lz : LazyObj} {th : Ref.Thunk} (hlz : LzOk m s rs lz th) (code : List Instr) :
+    {lz : LazyObj} {th : Ref.Thunk} (hlz : LzOk m s rs lz th) (hval : lz.value = none) (code : List Instr) :
     RelF m (inForce s lz code) rs th.env := by
   obtain ⟨k0, hc0, hfc0⟩ := h.ctx
-  obtain ⟨hel, hb, k, hc, hfc⟩ := hlz.chain
+  obtain ⟨_, _, hel, hb, k, hc, hfc⟩ := hlz.todo hval
   have hk : FnsKeep s (inForce s lz code) :=
     FnsKeep.of_eq (by show s.fns.length ≤ (s.fns ++ [_]).length; simp) (fun id hid => fnOf_inForce_old s lz code id hid)
       (by have := fns_ne_nil_of_lt hfc0.lt; cases hs : s.fns with | nil => exact absurd hs this | cons _ _ => simp [mainFn])
@@ -246,7 +246,7 @@ def memoSetR (rs : Ref.St) (id : Nat) (th : Ref.Thunk) (v : Val) : Ref.St :=
 
 /-- **Memoising**: the value goes into the same slot of both tables -/
 theorem RelF.memo {m s rs env} (h : RelF m s rs env) {id : Nat} {lz : LazyObj} {th : Ref.Thunk} {v : Val}
-    (hlz : LzOk m s rs lz th) (hv : VOk m s rs v) :
+    (hv : VOk m s rs v) :
     RelF m (memoSet s id lz v) (memoSetR rs id th (trf m v)) env := by
   obtain ⟨k, hc, hfc⟩ := h.ctx
   have hk : FnsKeep s (memoSet s id lz v) := FnsKeep.of_fns_eq rfl
@@ -268,8 +268,7 @@ theorem RelF.memo {m s rs env} (h : RelF m s rs env) {id : Nat} {lz : LazyObj} {
       rw [List.getElem?_set_self hlt] at hl'
       injection hl' with hl'
       subst hl'
-      have hm := hlz.mono hk (Nat.le_refl _) (fun _ _ => rfl) hr (fun _ _ => rfl)
-      refine ⟨{ th with value := some (trf m v) }, ?_, ⟨hm.e, hm.isvL, hm.isvT, rfl, ?_, hm.expr, hm.chain⟩⟩
+      refine ⟨{ th with value := some (trf m v) }, ?_, ⟨rfl, ?_, fun hn => by cases hn⟩⟩
       · show (rs.thunks.set id _)[id]? = _
         rw [List.getElem?_set_self (by rw [← h.lz.1]; exact hlt)]
       · intro w hw
@@ -298,36 +297,34 @@ theorem ref_applyFn_force (k : Nat) (vs : List Val) (rs : Ref.St) :
   · cases a <;> rfl
   · cases a <;> rfl
 
-/-- the state a force leaves seen from the caller of the builtin: control as before the builtin was entered -/
-def outForce (s s3 : St) : St := { s3 with addr := s.addr, curfunc := s.curfunc, pc := s.pc }
-
 /-- the state `Force` leaves inside the builtin frame, before the memo is set -/
 def afterForce (s s4 : St) (D : List (Option Val)) : St :=
   { s4 with addr := some (s.curfunc, s.pc + 1) :: s.addr, curfunc := builtinFn, pc := -1, data := D,
             linear := s.linear, suspended := s.suspended }
 
-/-- `Force` run inside the builtin frame of a related state, against `Ref.force` -/
-def ForceOk (m : Nat → Nat) (s : St) (rs : Ref.St) (env : Nat) (id : Nat) (D : List (Option Val)) (res : Ref.R Val) : Prop :=
+/-- **A computation of a Go builtin** (`run`: its result from the state inside the builtin frame of a related
+state `s`, the arguments popped, `D` below them) against a result of the reference evaluator: with enough fuel
+it returns the related value inside the builtin frame of a related state `s'` — control of `s'` as in `s` —, or
+fails with the same trace. -/
+def BOk (m : Nat → Nat) (s : St) (rs : Ref.St) (env : Nat) (D : List (Option Val)) (run : Nat → Except Fault Val × St)
+    (res : Ref.R Val) : Prop :=
   match res with
-  | .ok v' rs' => ∃ (M : Nat) (s3 : St) (m' : Nat → Nat) (v : Val),
-      (∀ fuel, M ≤ fuel → (forceLazy fuel id).run (inBuiltin s D) = (.ok v, s3))
-      ∧ s3.addr = (inBuiltin s D).addr ∧ s3.data = D ∧ v' = trf m' v ∧ RelF m' (outForce s s3) rs' env
-      ∧ MExt s m m' ∧ RExt rs rs' ∧ FrameF s (outForce s s3) ∧ VOk m' (outForce s s3) rs' v
-  | .err rs' => ∃ M, ∀ fuel, M ≤ fuel → ∃ se, (forceLazy fuel id).run (inBuiltin s D) = (.error .err, se)
-      ∧ se.trace = rs'.trace
+  | .ok v' rs' => ∃ (M : Nat) (s' : St) (m' : Nat → Nat) (v : Val),
+      (∀ fuel, M ≤ fuel → run fuel = (.ok v, inBuiltin s' D))
+      ∧ s'.pc = s.pc ∧ v' = trf m' v ∧ RelF m' s' rs' env
+      ∧ MExt s m m' ∧ RExt rs rs' ∧ FrameF s s' ∧ VOk m' s' rs' v
+  | .err rs' => ∃ M, ∀ fuel, M ≤ fuel → ∃ se, run fuel = (.error .err, se) ∧ se.trace = rs'.trace
   | .timeout => True
   | .brk _ _ => False
   | .cont _ _ => False
 
 theorem force_sim {k : Nat} (hlow : ∀ j, j < k → FClaimE j) {m : Nat → Nat} {s : St} {rs : Ref.St} {env : Nat}
     (hrel : RelF m s rs env) (id : Nat) (D : List (Option Val)) :
-    ForceOk m s rs env id D (Ref.force k id rs) := by
+    BOk m s rs env D (fun fuel => (forceLazy fuel id).run (inBuiltin s D)) (Ref.force k id rs) := by
   cases k with
   | zero => rw [Ref.force]; trivial
   | succ j =>
   rw [Ref.force]
-  have hframe0 : FrameF s (outForce s (inBuiltin s D)) :=
-    ⟨⟨rfl, rfl, rfl, rfl, Nat.le_refl _, fun _ _ => rfl, Nat.le_refl _, fun _ _ => rfl⟩, Nat.le_refl _, fun _ _ => rfl⟩
   cases ht : rs.thunks[id]? with
   | none =>
     have hl : (inBuiltin s D).lazies[id]? = none := by
@@ -350,19 +347,18 @@ theorem force_sim {k : Nat} (hlow : ∀ j, j < k → FClaimE j) {m : Nat → Nat
     | some v =>
       have htv : th.value = some (trf m v) := by rw [hlz.val, hval]; rfl
       rw [htv]
-      refine ⟨1, inBuiltin s D, m, v, fun fuel hf => ?_, rfl, rfl, rfl, ?_, MExt.refl s m, RExt.refl rs, hframe0, ?_⟩
-      · obtain ⟨f, rfl⟩ : ∃ f, fuel = f + 1 := ⟨fuel - 1, by omega⟩
-        exact forceLazy_memo f id _ lz v hlB hval
-      · exact hrel.of_same rfl rfl rfl rfl rfl rfl hrel.heap hrel.trace hrel.hok
-      · exact ValIn.mono (hlz.vok v hval) (fun id hg => hg.mono (FnsKeep.of_fns_eq rfl) (Nat.le_refl _) (fun _ _ => rfl) (RExt.refl _) rfl)
+      refine ⟨1, s, m, v, fun fuel hf => ?_, rfl, rfl, hrel, MExt.refl s m, RExt.refl rs, FrameF.refl s, hlz.vok v hval⟩
+      obtain ⟨f, rfl⟩ : ∃ f, fuel = f + 1 := ⟨fuel - 1, by omega⟩
+      exact forceLazy_memo f id _ lz v hlB hval
     | none =>
       have htv : th.value = none := by rw [hlz.val, hval]; rfl
+      obtain ⟨hthe, hexpr, _⟩ := hlz.todo hval
       rw [htv]
       simp only
-      have hev : Ref.eval j th.e th.env rs = Ref.eval j lz.e th.env rs := by rw [hlz.e]
+      have hev : Ref.eval j th.e th.env rs = Ref.eval j lz.e th.env rs := by rw [hthe]
       rw [hev]
       -- the expression is compiled now
-      obtain ⟨code, t, gs', hc, hne, hk⟩ := compile_total_Ff false "" lz.e hlz.expr (isFnScope (inBuiltin s D)) {}
+      obtain ⟨code, t, gs', hc, hne, hk⟩ := compile_total_Ff false "" lz.e hexpr (isFnScope (inBuiltin s D)) {}
         { fns := s.fns, loops := s.loops, loopstack := s.loopstack, live := s.linear } (Or.inl rfl)
       have hfns : gs'.fns = s.fns := hk.2 rfl
       have hgen : (runGen (compile (isFnScope (inBuiltin s D)) {} lz.e)).run (inBuiltin s D)
@@ -376,10 +372,10 @@ theorem force_sim {k : Nat} (hlow : ∀ j, j < k → FClaimE j) {m : Nat → Nat
       have hlzL : LzOk m (withLoops s gs') rs lz th :=
         hlz.mono hkL (Nat.le_refl _) (fun _ _ => rfl) (RExt.refl rs) (fun _ _ => rfl)
       have relIn : RelF m (inForce (withLoops (inBuiltin s D) gs') lz code) rs th.env :=
-        (relF_inForce relL hlzL code).of_same rfl rfl rfl rfl rfl rfl (relF_inForce relL hlzL code).heap
-          (relF_inForce relL hlzL code).trace (relF_inForce relL hlzL code).hok
+        (relF_inForce relL hlzL hval code).of_same rfl rfl rfl rfl rfl rfl (relF_inForce relL hlzL hval code).heap
+          (relF_inForce relL hlzL hval code).trace (relF_inForce relL hlzL hval code).hok
       have hseg := seg_inForce (withLoops (inBuiltin s D) gs') lz code
-      have hsim := hlow j (Nat.lt_succ_self j) false "" lz.e hlz.expr (isFnScope (inBuiltin s D)) {} _ ((code, t), _) hc
+      have hsim := hlow j (Nat.lt_succ_self j) false "" lz.e hexpr (isFnScope (inBuiltin s D)) {} _ ((code, t), _) hc
         (Or.inl rfl) m (inForce (withLoops (inBuiltin s D) gs') lz code) rs th.env [] [.ret] relIn (fun h => by cases h) hseg
       have hunf := fun fuel => forceLazy_run fuel id (inBuiltin s D) (withLoops (inBuiltin s D) gs') lz code t hlB hval hgen hne
       cases hres : Ref.eval j lz.e th.env rs with
@@ -407,23 +403,18 @@ theorem force_sim {k : Nat} (hlow : ∀ j, j < k → FClaimE j) {m : Nat → Nat
           ⟨⟨rfl, rfl, rfl, rfl, hfl, hfo, Nat.le_trans hleL.1 hle4.1,
             fun i hi => (hle4.2 i (Nat.lt_of_lt_of_le hi hleL.1)).trans (hleL.2 i hi)⟩, fr4.scLen, fr4.flags⟩
         have hm5 : MExt s m m4 := fun id hid => hm4 id (by show id < (s.fns ++ [_]).length; simp; omega)
-        have hk5 : FnsKeep s s5 :=
-          FnsKeep.of_eq hfl hfo
-            (by obtain ⟨_, _, hfc⟩ := hrel.ctx
-                have := fns_ne_nil_of_lt hfc.lt; cases hs : s.fns with | nil => exact absurd hs this | cons _ _ => simp [mainFn])
-            ⟨hframe5.loopsLen, hframe5.loops⟩
-        have hlz5 : LzOk m4 s5 rs' lz th := hlz.mono hk5 fr4.scLen fr4.flags ext4 hm5
         have hcl5 : VOk m4 s5 rs' v :=
           ValIn.mono hcl4 (fun id hg => hg.mono (FnsKeep.of_fns_eq rfl) (Nat.le_refl _) (fun _ _ => rfl) (RExt.refl _) rfl)
-        have relF := rel5.memo (id := id) hlz5 hcl5
+        have relF := rel5.memo (id := id) (lz := lz) (th := th) hcl5
         have hrF : RExt rs' (memoSetR rs' id th (trf m4 v)) := ⟨fun i fr hf => ⟨fr, hf, rfl⟩, fun _ _ hc' => hc'⟩
         simp only
         subst hv
-        refine ⟨M + 2, memoSet (afterForce s s4 D) id lz v, m4, v, fun fuel hf => ?_, rfl, rfl, rfl, relF, hm5,
+        refine ⟨M + 2, memoSet s5 id lz v, m4, v, fun fuel hf => ?_, rfl, rfl, relF, hm5,
           ext4.trans hrF,
           ⟨⟨hframe5.linear, hframe5.curfunc, hframe5.addr, hframe5.susp, hframe5.fnsLen, hframe5.fns, hframe5.loopsLen,
             hframe5.loops⟩, hframe5.scLen, hframe5.flags⟩, ?_⟩
         · obtain ⟨f, rfl⟩ : ∃ f, fuel = f + 2 := ⟨fuel - 2, by omega⟩
+          show (forceLazy (f + 2) id).run (inBuiltin s D) = _
           rw [hunf f, hM f (by omega)]
           simp only [hres5]
           rfl
@@ -434,23 +425,29 @@ theorem force_sim {k : Nat} (hlow : ∀ j, j < k → FClaimE j) {m : Nat → Nat
         refine ⟨M + 2, fun fuel hf => ?_⟩
         obtain ⟨f, rfl⟩ : ∃ f, fuel = f + 2 := ⟨fuel - 2, by omega⟩
         obtain ⟨sf, hrun, htr⟩ := hM f (by omega)
-        refine ⟨_, by rw [hunf f, hrun], ?_⟩
+        refine ⟨_, by show (forceLazy (f + 2) id).run (inBuiltin s D) = _; rw [hunf f, hrun], ?_⟩
         rw [restore_trace]; exact htr
       | timeout => trivial
       | brk l rs' => rw [hres] at hsim; exact hsim.elim
       | cont l rs' => rw [hres] at hsim; exact hsim.elim
 
-/-! ## A call of `force` -/
+/-! ## A call of a Go builtin that calls back into the machine -/
 
-/-- **A call whose callee symbol denotes `force`**, from the segment lemma at lower fuel (the thunk's
-expression is evaluated with less fuel than the call) and the operand claim at the call's fuel -/
-theorem fclaimG {k : Nat} (hlow : ∀ j, j < k → FClaimE j) (hA : FClaimA (k + 1)) : FClaimG k := by
+/-- the Go builtin `name` on evaluated arguments, inside its frame -/
+def BClaim (n : Nat) (name : String) : Prop :=
+  ∀ (m : Nat → Nat) (s : St) (rs : Ref.St) (env : Nat) (vs : List Val) (D : List (Option Val)), RelF m s rs env →
+    (∀ v ∈ vs, VOk m s rs v) →
+    BOk m s rs env D (fun fuel => (builtin fuel name vs).run (inBuiltin s D)) (Ref.applyFn n (.builtin name) (vs.map (trf m)) rs)
+
+/-- **The call instruction around a Go builtin**: operands, `CallUserFunction`, the builtin (`BClaim`), the value
+pushed and control back behind the call -/
+theorem fclaimH_of_bclaim {k : Nat} {name : String} (hA : FClaimA (k + 1)) (hb : BClaim (k + 1) name) : FClaimH k name := by
   intro h args hargs m s rs env pre post i hrel hseg hl
   rw [refCall_builtin]
   have hprep := hA args hargs none (fun _ => false) (fun _ => rfl) 0 m s rs env hrel
   have hexec : ∀ F, (exec (F + 3) (.callExpr (.sym h) args)).run s
       = guardedRun s.data.length
-          ((prepareArgs (F + 1) none 0 args >>= fun _ => callUser (F + 1) "force" args.length : M Unit).run s) :=
+          ((prepareArgs (F + 1) none 0 args >>= fun _ => callUser (F + 1) name args.length : M Unit).run s) :=
     fun F => by rw [exec_callExpr_sym F h args s i _ hl, run_callResolved_builtin]
   obtain ⟨b0, hch, hfc⟩ := hrel.ctx
   have hcurlt := hfc.lt
@@ -461,95 +458,46 @@ theorem fclaimG {k : Nat} (hlow : ∀ j, j < k → FClaimE j) (hA : FClaimA (k +
     simp only
     have hlen : args.length = vs.length := by
       rw [← ref_evalArgs_length' _ _ _ _ _ _ _ _ h1, hvs, List.length_map]
-    rw [ref_applyFn_force]
-    -- success, uniformly
-    have hok : ∀ (v : Val) (s3 : St) (m3 : Nat → Nat) (rsF : Ref.St) (Mb : Nat),
-        (∀ f, Mb ≤ f → (builtin (f + 1) "force" vs).run (inBuiltin s1 s.data) = (.ok v, s3)) →
-        s3.addr = (inBuiltin s1 s.data).addr → s3.data = s.data → RelF m3 (outForce s1 s3) rsF env → MExt s1 m1 m3 →
-        RExt rs1 rsF → FrameF s1 (outForce s1 s3) → VOk m3 (outForce s1 s3) rsF v →
-        SimF [.callExpr (.sym h) args] m s rs env (.ok (trf m3 v) rsF) := by
-      intro v s3 m3 rsF Mb hb ha3 hd3 rel3 hm3 ext3 fr3 hv3
-      let sF : St := (outForce s1 s3).jmp (s1.pc + 1) (some v :: s.data)
+    have hbo := hb m1 s1 rs1 env vs s.data rel1 hclvs
+    rw [← hvs] at hbo
+    cases h2 : Ref.applyFn (k + 1) (.builtin name) vs' rs1 with
+    | ok v' rsF =>
+      rw [h2] at hbo
+      obtain ⟨Mb, s3, m3, v, hbr, hpc3, hv, rel3, hm3, ext3, fr3, hv3⟩ := hbo
+      subst hv
+      let sF : St := s3.jmp (s1.pc + 1) (some v :: s.data)
       have hx : ∀ f, M + Mb + 3 ≤ f → (exec (f + 1) (.callExpr (.sym h) args)).run s = (.ok (), sF) := by
         intro f hf
         obtain ⟨G, rfl⟩ : ∃ G, f = G + 3 := ⟨f - 3, by omega⟩
         rw [hexec (G + 1), run_bind, hM (G + 1 + 1) (by omega)]
         simp only
-        rw [hlen, run_callUser_ok (G + 1) "force" vs s.data s1 s3 v hd1 (hb G (by omega)) ha3, hd3]; rfl
+        rw [hlen, run_callUser_ok (G + 1) name vs s.data s1 (inBuiltin s3 s.data) v hd1 (hbr (G + 1) (by omega))
+          (by show some (s3.curfunc, s3.pc + 1) :: s3.addr = _; rw [fr3.curfunc, fr3.addr, hpc3])]
+        show (Except.ok (), ({ s3 with data := some v :: s.data, addr := s1.addr, curfunc := s1.curfunc, pc := s1.pc + 1 } : St)) = _
+        rw [← fr3.addr, ← fr3.curfunc]
+        rfl
       have hfnF : fnOf sF sF.curfunc = fnOf s s.curfunc := by
         have h1 := fr3.fns s1.curfunc (by rw [fr1.curfunc]; exact Nat.lt_of_lt_of_le hcurlt fr1.fnsLen)
         have h2 := fr1.fns s.curfunc hcurlt
-        show fnOf (outForce s1 s3) s1.curfunc = _
-        rw [fr1.curfunc] at h1 ⊢
+        show fnOf s3 s3.curfunc = _
+        rw [fr3.curfunc, fr1.curfunc] at *
         exact h1.trans h2
-      refine ⟨sF, m3, v, ReachX.step hseg.head (M + Mb + 3) hx, ⟨hfnF, by show s1.pc + 1 = _; rw [hp1]; simp, rfl⟩, rfl,
+      exact ⟨sF, m3, v, ReachX.step hseg.head (M + Mb + 3) hx, ⟨hfnF, by show s1.pc + 1 = _; rw [hp1]; simp, rfl⟩, rfl,
         rel3.jmp _ _, hm1.trans hm3 fr1.fnsLen, ext1.trans ext3, fr1.trans (fr3.trans (FrameF.jmp _ _ _)),
         VOk.ext hv3 (FrameF.jmp _ _ _) (RExt.refl _) (MExt.refl _ _)⟩
-    -- failure of the builtin, uniformly
-    have hfail : ∀ (rsF : Ref.St) (Mb : Nat),
-        (∀ f, Mb ≤ f → ∃ se, (builtin (f + 1) "force" vs).run (inBuiltin s1 s.data) = (.error .err, se) ∧ se.trace = rsF.trace) →
-        SimF [.callExpr (.sym h) args] m s rs env (.err rsF) := by
-      intro rsF Mb hb
+    | err rsF =>
+      rw [h2] at hbo
+      obtain ⟨Mb, hbr⟩ := hbo
       refine FailsX.step hseg.head (M + Mb + 3) (fun f hf => ?_)
       obtain ⟨G, rfl⟩ : ∃ G, f = G + 3 := ⟨f - 3, by omega⟩
-      obtain ⟨se, hse, htr⟩ := hb G (by omega)
+      obtain ⟨se, hse, htr⟩ := hbr (G + 1) (by omega)
       refine ⟨_, by rw [hexec (G + 1), run_bind, hM (G + 1 + 1) (by omega)]; simp only
-                    rw [hlen, run_callUser_err (G + 1) "force" vs s.data s1 se hd1 hse]; rfl, ?_⟩
+                    rw [hlen, run_callUser_err (G + 1) name vs s.data s1 se hd1 hse]; rfl, ?_⟩
       show ((restore (capPopped s1 s.data)).run se).2.trace = _
       rw [restore_trace]; exact htr
-    have hrelB : RelF m1 (outForce s1 (inBuiltin s1 s.data)) rs1 env :=
-      rel1.of_same rfl rfl rfl rfl rfl rfl rel1.heap rel1.trace rel1.hok
-    have hframeB : FrameF s1 (outForce s1 (inBuiltin s1 s.data)) :=
-      ⟨⟨rfl, rfl, rfl, rfl, Nat.le_refl _, fun _ _ => rfl, Nat.le_refl _, fun _ _ => rfl⟩, Nat.le_refl _, fun _ _ => rfl⟩
-    have hvB : ∀ v, VOk m1 s1 rs1 v → VOk m1 (outForce s1 (inBuiltin s1 s.data)) rs1 v := fun v hv =>
-      ValIn.mono hv (fun id hg => hg.mono (FnsKeep.of_fns_eq rfl) (Nat.le_refl _) (fun _ _ => rfl) (RExt.refl _) rfl)
-    have herr : ∀ (hne : ∀ a, vs ≠ [a]), SimF [.callExpr (.sym h) args] m s rs env (.err rs1) := by
-      intro hne
-      refine hfail rs1 0 (fun f _ => ⟨inBuiltin s1 s.data, ?_, rel1.trace⟩)
-      rw [run_builtin_force]
-      rcases vs with _ | ⟨a, _ | ⟨b, r⟩⟩
-      · rfl
-      · exact absurd rfl (hne a)
-      · cases a <;> rfl
-    have hval : ∀ a, vs = [a] → (∀ id, a ≠ .lazy id) → SimF [.callExpr (.sym h) args] m s rs env (.ok (trf m1 a) rs1) := by
-      intro a ha hnl
-      refine hok a (inBuiltin s1 s.data) m1 rs1 0 (fun f _ => ?_) rfl rfl hrelB (MExt.refl _ _) (RExt.refl _) hframeB
-        (hvB a (hclvs a (by rw [ha]; exact List.mem_singleton_self a)))
-      rw [run_builtin_force, ha]
-      cases a <;> first | rfl | exact absurd rfl (hnl _)
-    rcases vs with _ | ⟨a, _ | ⟨b, r⟩⟩
-    · rw [hvs]; exact herr (fun a ha => by cases ha)
-    · rw [hvs]
-      cases a with
-      | lazy id =>
-        show SimF _ m s rs env (Ref.force k id rs1)
-        have hf := force_sim hlow rel1 id s.data
-        cases hres : Ref.force k id rs1 with
-        | ok v' rsF =>
-          rw [hres] at hf
-          obtain ⟨Mb, s3, m3, v, hb, ha3, hd3, hv, rel3, hm3, ext3, fr3, hv3⟩ := hf
-          subst hv
-          exact hok v s3 m3 rsF Mb (fun f hf => by rw [run_builtin_force]; exact hb f hf) ha3 hd3 rel3 hm3 ext3 fr3 hv3
-        | err rsF =>
-          rw [hres] at hf
-          obtain ⟨Mb, hb⟩ := hf
-          exact hfail rsF Mb (fun f hf => by rw [run_builtin_force]; exact hb f hf)
-        | timeout => trivial
-        | brk l rsF => rw [hres] at hf; exact hf.elim
-        | cont l rsF => rw [hres] at hf; exact hf.elim
-      | nil => exact hval _ rfl (fun _ hh => by cases hh)
-      | bool b => exact hval _ rfl (fun _ hh => by cases hh)
-      | int b => exact hval _ rfl (fun _ hh => by cases hh)
-      | str b => exact hval _ rfl (fun _ hh => by cases hh)
-      | pair x y => exact hval _ rfl (fun _ hh => by cases hh)
-      | arr r => exact hval _ rfl (fun _ hh => by cases hh)
-      | fn f => exact hval _ rfl (fun _ hh => by cases hh)
-      | builtin n => exact hval _ rfl (fun _ hh => by cases hh)
-      | mark l => exact hval _ rfl (fun _ hh => by cases hh)
-      | sym x => exact hval _ rfl (fun _ hh => by cases hh)
-    · rw [hvs]
-      have := herr (fun a ha => by cases ha)
-      cases a <;> exact this
+    | timeout => trivial
+    | brk l rsF => rw [h2] at hbo; exact hbo.elim
+    | cont l rsF => rw [h2] at hbo; exact hbo.elim
   | err rs1 =>
     rw [h1] at hprep
     obtain ⟨M, hM⟩ := hprep
@@ -561,5 +509,70 @@ theorem fclaimG {k : Nat} (hlow : ∀ j, j < k → FClaimE j) (hA : FClaimA (k +
   | timeout => trivial
   | brk l rs1 => rw [h1] at hprep; exact hprep.elim
   | cont l rs1 => rw [h1] at hprep; exact hprep.elim
+
+/-- `force` on evaluated arguments -/
+theorem bclaim_force {k : Nat} (hlow : ∀ j, j < k → FClaimE j) : BClaim (k + 1) "force" := by
+  intro m s rs env vs D hrel hvs
+  rw [ref_applyFn_force]
+  have herr : ∀ (hne : ∀ a, vs ≠ [a]), BOk m s rs env D (fun fuel => (builtin fuel "force" vs).run (inBuiltin s D)) (.err rs) := by
+    intro hne
+    refine ⟨1, fun fuel hf => ⟨inBuiltin s D, ?_, hrel.trace⟩⟩
+    obtain ⟨f, rfl⟩ : ∃ f, fuel = f + 1 := ⟨fuel - 1, by omega⟩
+    show (builtin (f + 1) "force" vs).run (inBuiltin s D) = _
+    rw [run_builtin_force]
+    rcases vs with _ | ⟨a, _ | ⟨b, r⟩⟩
+    · rfl
+    · exact absurd rfl (hne a)
+    · cases a <;> rfl
+  have hval : ∀ a, vs = [a] → (∀ id, a ≠ .lazy id) →
+      BOk m s rs env D (fun fuel => (builtin fuel "force" vs).run (inBuiltin s D)) (.ok (trf m a) rs) := by
+    intro a ha hnl
+    refine ⟨1, s, m, a, fun fuel hf => ?_, rfl, rfl, hrel, MExt.refl _ _, RExt.refl _, FrameF.refl _,
+      hvs a (by rw [ha]; exact List.mem_singleton_self a)⟩
+    obtain ⟨f, rfl⟩ : ∃ f, fuel = f + 1 := ⟨fuel - 1, by omega⟩
+    show (builtin (f + 1) "force" vs).run (inBuiltin s D) = _
+    rw [run_builtin_force, ha]
+    cases a <;> first | rfl | exact absurd rfl (hnl _)
+  rcases vs with _ | ⟨a, _ | ⟨b, r⟩⟩
+  · exact herr (fun a ha => by cases ha)
+  · cases a with
+    | lazy id =>
+      show BOk m s rs env D _ (Ref.force k id rs)
+      have hf := force_sim hlow hrel id D
+      cases hres : Ref.force k id rs with
+      | ok v' rsF =>
+        rw [hres] at hf
+        obtain ⟨Mb, s3, m3, v, hb, hpc3, hv, rel3, hm3, ext3, fr3, hv3⟩ := hf
+        refine ⟨Mb + 1, s3, m3, v, fun fuel hf => ?_, hpc3, hv, rel3, hm3, ext3, fr3, hv3⟩
+        obtain ⟨f, rfl⟩ : ∃ f, fuel = f + 1 := ⟨fuel - 1, by omega⟩
+        show (builtin (f + 1) "force" [.lazy id]).run (inBuiltin s D) = _
+        rw [run_builtin_force]; exact hb f (by omega)
+      | err rsF =>
+        rw [hres] at hf
+        obtain ⟨Mb, hb⟩ := hf
+        refine ⟨Mb + 1, fun fuel hf => ?_⟩
+        obtain ⟨f, rfl⟩ : ∃ f, fuel = f + 1 := ⟨fuel - 1, by omega⟩
+        obtain ⟨se, hse, htr⟩ := hb f (by omega)
+        exact ⟨se, by show (builtin (f + 1) "force" [.lazy id]).run (inBuiltin s D) = _; rw [run_builtin_force]; exact hse, htr⟩
+      | timeout => trivial
+      | brk l rsF => rw [hres] at hf; exact hf.elim
+      | cont l rsF => rw [hres] at hf; exact hf.elim
+    | nil => exact hval _ rfl (fun _ hh => by cases hh)
+    | bool b => exact hval _ rfl (fun _ hh => by cases hh)
+    | int b => exact hval _ rfl (fun _ hh => by cases hh)
+    | str b => exact hval _ rfl (fun _ hh => by cases hh)
+    | pair x y => exact hval _ rfl (fun _ hh => by cases hh)
+    | arr r => exact hval _ rfl (fun _ hh => by cases hh)
+    | fn f => exact hval _ rfl (fun _ hh => by cases hh)
+    | builtin n => exact hval _ rfl (fun _ hh => by cases hh)
+    | mark l => exact hval _ rfl (fun _ hh => by cases hh)
+    | sym x => exact hval _ rfl (fun _ hh => by cases hh)
+  · have := herr (fun a ha => by cases ha)
+    cases a <;> exact this
+
+/-- **A call whose callee symbol denotes `force`**, from the segment lemma at lower fuel (the thunk's
+expression is evaluated with less fuel than the call) and the operand claim at the call's fuel -/
+theorem fclaimG {k : Nat} (hlow : ∀ j, j < k → FClaimE j) (hA : FClaimA (k + 1)) : FClaimG k :=
+  fclaimH_of_bclaim hA (bclaim_force hlow)
 
 end ZygoVerif.Sim
